@@ -65,6 +65,12 @@ type bsim struct {
 	cliFlagRoots [2]string
 	// cliVariant: which of the two copies of the workspace on disk the next command uses
 	cliVariant int
+	// cliCopyToMemory: the commands run with BUF_BETA_COPY_FILES_TO_MEMORY set
+	cliCopyToMemory bool
+	// cliPlain: the next on-disk workspace is a plain directory tree (no links, second names or archives)
+	cliPlain bool
+	// cliLastOut: the image file the last cliBuild wrote
+	cliLastOut string
 	// withFormatDiff: this run also produces the `buf format -d` output
 	withFormatDiff bool
 	// withFormatBroken: this run also formats a tree with one unparsable file and compares the failure text
@@ -621,6 +627,11 @@ func Run(tp *tape.Tape, env *engine.Env) *engine.Outcome {
 	switch mode {
 	case "planted":
 		m.checkPlanted(base, "baseline")
+		if m.prop == "C01" && m.cliUsable() && m.ws.Closure()[m.ws.Planted.Path] && tp.Draw("cliplanted", 3) == 2 {
+			s.Unhashed = true
+			m.cliPlantedError(context.Background())
+			s.Unhashed = false
+		}
 	default:
 		if base.err != nil {
 			s.Violate("harness-reference", "harness|baseline-failed", "fault-free baseline build failed: %v", base.err)
@@ -777,6 +788,9 @@ func Run(tp *tape.Tape, env *engine.Env) *engine.Outcome {
 	}
 	if len(distinctArrivals) > 1 {
 		s.Probe("arrival-order-distinct")
+	}
+	if m.prop == "C02" && m.cliRoot != "" {
+		m.cliRunAfterRun()
 	}
 	s.Drain()
 	out := engine.FromSim(s)
